@@ -757,7 +757,7 @@ func main() {
 				le := r.Bool()
 				ge, gn := data_model.VerifEndOfLOD(start, step, e, le, time.UTC)
 				input := fmt.Sprintf("eol start=%d step=%d end=%d le=%v", start, step, e, le)
-				line := o.Case(input, fmt.Sprintf("CEol %d %d %s %s [] %s %d", start, step, vu.Z(e), vu.B(le), vu.Z(ge), gn), gn > 0, "eol")
+				line := o.Case(input, fmt.Sprintf("CEol %s %d %s %s [] %s %d", vu.Z(start), step, vu.Z(e), vu.B(le), vu.Z(ge), gn), gn > 0, "eol")
 				if ge != start+int64(gn)*step || (start < e && !le && (ge < e || ge-step >= e)) || (start < e && le && (ge > e || ge+step <= e)) {
 					o.Fail("end_of_lod_closed_form", line, input)
 				}
@@ -770,7 +770,7 @@ func main() {
 				}
 				got := data_model.VerifStartOfLOD(t, month, z.loc, 0)
 				input := fmt.Sprintf("startof t=%d zone=%s", t, z.name)
-				line := o.Case(input, fmt.Sprintf("CStartOf %d %d 0 %s %d", t, month, tableTerm(tbl), got), true, "startof-month")
+				line := o.Case(input, fmt.Sprintf("CStartOf %s %d 0 %s %s", vu.Z(t), month, tableTerm(tbl), vu.Z(got)), true, "startof-month")
 				if got > t || t-got > 32*day {
 					o.Fail("month_start_le_t", line, input)
 				}
@@ -779,7 +779,7 @@ func main() {
 				le := r.Bool()
 				ge, gn := data_model.VerifEndOfLOD(start, month, e, le, z.loc)
 				input = fmt.Sprintf("eol-month start=%d end=%d le=%v zone=%s", start, e, le, z.name)
-				o.Case(input, fmt.Sprintf("CEol %d %d %s %s %s %s %d", start, month, vu.Z(e), vu.B(le), tableTerm(monthTable(z.loc, start-40*day, e+40*day)), vu.Z(ge), gn), gn > 0, "eol-month")
+				o.Case(input, fmt.Sprintf("CEol %s %d %s %s %s %s %d", vu.Z(start), month, vu.Z(e), vu.B(le), tableTerm(monthTable(z.loc, start-40*day, e+40*day)), vu.Z(ge), gn), gn > 0, "eol-month")
 			}
 		}
 	}
